@@ -14,7 +14,7 @@ Requests (tokens separated by blanks; byte strings hex, `-` = empty):
 * `val HB SIG ADN DECHB DECHDR KP WF VERIFY BODYDEC METADEC`      `validate` and `decode_validated`
 * `ent INFO I N (KEY HB SIG)*N DECHB DECHDR KP WF V_0 … V_N`      `validate_signature` of entry I (code's
                                                                    take_while form and index form)
-* `segrpc …`, `pathrpc …`, `pathto …`                             RPC conversions (see the parsers below)
+* `segrpc …`, `segto …`, `pathrpc …`, `pathto …`                           RPC conversions (see the parsers below)
 -/
 open ScionVerif.Signed ScionVerif.Rpc Driver
 
@@ -322,6 +322,35 @@ def reqSegRpc : P String := do
   | .error e => pure (if e == .panic then "panic" else s!"err {rErrLabel e}")
   | .ok s => pure s!"ok {segStr s}"
 
+def pPair {α β : Type} (p : P α) (q : P β) : P (α × β) := do
+  let a ← p
+  let b ← q
+  pure (a, b)
+
+/-- `segto TS SID ENCODED REENC N (HB SIG)*N`: what `into_rpc` sends for a segment whose info is
+(TS, SID, ENCODED); REENC = prost encoding of (TS, SID) (oracle token for `encInfo`) -/
+def reqSegTo : P String := do
+  let ts ← pNat
+  let sid ← pNat
+  let enc ← pHex
+  let reenc ← pHex
+  let es ← pCounted (pPair pHex pHex)
+  pEnd
+  let pc : PCodec :=
+    { c := oracleCodec none none, decBody := fun _ => none, encBody := fun _ => [],
+      decInfo := fun _ => none, encInfo := fun _ => reenc }
+  let dummy : AsEntry :=
+    { local_ := 0, next := 0, mtu := 0, hopEntry := { ingressMtu := 0, hopField := { exp := 0, ingress := 0, egress := 0, mac := [] } },
+      peers := [], extensions := [], unsignedExtensions := [] }
+  let s : Segment :=
+    { info := { timestamp := ts, segmentId := sid, encoded := enc },
+      entries := es.map fun x => { entry := dummy, signed := { hb := x.1, sig := x.2 } } }
+  let r := segToRpc pc s
+  let ents := String.join (r.asEntries.map fun e => match e.signed with
+    | none => " S0"
+    | some sm => s!" S1 {toHex sm.hb} {toHex sm.sig}")
+  pure s!"{toHex r.segmentInfo} {r.asEntries.length}{ents}"
+
 /-! ## paths over RPC -/
 
 def pOpt {α : Type} (none_ some_ : String) (p : P α) : P (Option α) := do
@@ -329,11 +358,6 @@ def pOpt {α : Type} (none_ some_ : String) (p : P α) : P (Option α) := do
   if t == none_ then pure none
   else if t == some_ then (do let a ← p; pure (some a))
   else failure
-
-def pPair {α β : Type} (p : P α) (q : P β) : P (α × β) := do
-  let a ← p
-  let b ← q
-  pure (a, b)
 
 def pRGeo : P RGeo := do
   let lat ← pNat
@@ -478,6 +502,7 @@ def step (st : Unit) : List String → Unit × String
   | "val" :: args => (st, runP reqVal args)
   | "ent" :: args => (st, runP reqEnt args)
   | "segrpc" :: args => (st, runP reqSegRpc args)
+  | "segto" :: args => (st, runP reqSegTo args)
   | "pathrpc" :: args => (st, runP reqPathRpc args)
   | "pathto" :: args => (st, runP reqPathTo args)
   | _ => (st, "bad-op")
